@@ -107,6 +107,9 @@ type World struct {
 	// StdoutFailAt > 0: the output writer (Command.Stdout / the Linter's out) fails like a closed
 	// pipe once StdoutFailAt-1 bytes have been written (not for shared Linters)
 	StdoutFailAt int
+	// LogFailAt > 0: the log writer (Command.Stderr / LinterOptions.LogWriter) fails like a full
+	// disk once LogFailAt-1 bytes have been written (not for shared Linters)
+	LogFailAt int
 	Tools        kern.ToolModel
 	Faults       []kern.Fault
 	Note         string // free-text description of how the world was generated
@@ -139,6 +142,8 @@ type LintResult struct {
 	ModeSig    uint64 // digest of the non-identity modes installed
 	// Linter is the (last) Linter instance used by a library-API run, for post-run inspection.
 	Linter *actionlint.Linter
+	// LogWriteFailures counts the writes the failing log writer refused (World.LogFailAt)
+	LogWriteFailures int
 }
 
 // RunOpts are per-run simulator settings.
@@ -311,6 +316,36 @@ func (w *failingWriter) Write(p []byte) (int, error) {
 	return n, errors.New("write |1: broken pipe")
 }
 
+// failingLogWriter is a log writer (goroutine-safe like os.Stderr) that accepts room bytes and
+// fails from then on, writing nothing more. Every failed write passes through the kernel (with no
+// lock held), so a caller that retries for ever runs into the step bound instead of spinning
+// outside the simulation.
+type failingLogWriter struct {
+	mu     sync.Mutex
+	b      *bytes.Buffer
+	room   int
+	failed *int
+}
+
+func (w *failingLogWriter) Write(p []byte) (int, error) {
+	w.mu.Lock()
+	if len(p) <= w.room {
+		w.room -= len(p)
+		n, err := w.b.Write(p)
+		w.mu.Unlock()
+		return n, err
+	}
+	n := w.room
+	w.b.Write(p[:n])
+	w.room = 0
+	*w.failed++
+	w.mu.Unlock()
+	if kern.Active() && !kern.Aborting() {
+		kern.Call(kern.Req{Op: kern.OpYield})
+	}
+	return n, errors.New("write /dev/stderr: no space left on device")
+}
+
 // sharedOut is the output writer of a shared Linter: a buffer that can be made to fail.
 type sharedOut struct{ s *sharedLinter }
 
@@ -349,6 +384,9 @@ func lintOnce(w *World, res *LintResult, shared *sharedLinter) {
 		cmd.Stdin, cmd.Stdout, cmd.Stderr = in, &out, &lockedWriter{b: &errb}
 		if w.StdoutFailAt > 0 {
 			cmd.Stdout = &failingWriter{b: &out, room: w.StdoutFailAt - 1}
+		}
+		if w.LogFailAt > 0 && shared == nil {
+			cmd.Stderr = &failingLogWriter{b: &errb, room: w.LogFailAt - 1, failed: &res.LogWriteFailures}
 		}
 		res.Exit = cmd.Main(append([]string{"actionlint"}, w.Args...))
 	default:
@@ -395,6 +433,9 @@ func lintOnce(w *World, res *LintResult, shared *sharedLinter) {
 			var ow io.Writer = &out
 			if w.StdoutFailAt > 0 {
 				ow = &failingWriter{b: &out, room: w.StdoutFailAt - 1}
+			}
+			if w.LogFailAt > 0 {
+				opts.LogWriter = &failingLogWriter{b: &errb, room: w.LogFailAt - 1, failed: &res.LogWriteFailures}
 			}
 			l, err = actionlint.NewLinter(ow, opts)
 		}
@@ -446,6 +487,7 @@ type WorldJSON struct {
 	Opts       Options           `json:"opts"`
 	Stdin      string            `json:"stdin,omitempty"`
 	StdoutFail int               `json:"stdout_fails_after_bytes_plus_one,omitempty"`
+	LogFail    int               `json:"log_writer_fails_after_bytes_plus_one,omitempty"`
 	Faults     []kern.Fault      `json:"faults,omitempty"`
 	Dirs       []string          `json:"dirs,omitempty"`
 	Disk       map[string]string `json:"disk"`
@@ -456,7 +498,7 @@ type WorldJSON struct {
 
 // Materialise renders the world for a replay file or an evidence sample.
 func (w *World) Materialise() *WorldJSON {
-	j := &WorldJSON{Cwd: w.Cwd, CPUs: w.CPUs, GoMaxProcs: w.GoMaxProcs, API: w.API, Args: w.Args, Files: w.Files, Opts: w.Opts, Stdin: w.Stdin, StdoutFail: w.StdoutFailAt,
+	j := &WorldJSON{Cwd: w.Cwd, CPUs: w.CPUs, GoMaxProcs: w.GoMaxProcs, API: w.API, Args: w.Args, Files: w.Files, Opts: w.Opts, Stdin: w.Stdin, StdoutFail: w.StdoutFailAt, LogFail: w.LogFailAt,
 		Faults: w.Faults, Disk: map[string]string{}, Note: w.Note}
 	for p, c := range w.Disk.Files {
 		j.Disk[p] = string(c)
@@ -513,6 +555,9 @@ func (w *World) Hash() uint64 {
 		fmt.Fprintf(h, "L%s>%s|", p, w.Disk.Links[p])
 	}
 	fmt.Fprintf(h, "|%s|%d|%d|%s|%q|%q|%+v|%q|%d", w.Cwd, w.CPUs, w.GoMaxProcs, w.API, w.Args, w.Files, w.Opts, w.Stdin, w.StdoutFailAt)
+	if w.LogFailAt > 0 {
+		fmt.Fprintf(h, "|log%d", w.LogFailAt)
+	}
 	for _, f := range w.Faults {
 		fmt.Fprintf(h, "|%+v", f)
 	}
